@@ -1467,4 +1467,135 @@ example :
     (r.steps.filter (fun s => s.k == 0 && s.w == some 0)).length = 3 := by decide
 example : (saveShardedNest 420 [serNJob false ("m.data", [])] (exNSched false) exSt).refused = true := by decide
 
+
+/-! ## Wave 7: the exception path of the two-level run, proved
+
+Helper lemmas: the last section of `Lemmas/AtomicSaveNest.lean` (`NExc`, `NNoExc`, `NClean`, `nrun_gen`). -/
+
+theorem nAllDone_spec {n : Nat} {c : NCSt} (h : nAllDone n c = true) :
+    ∀ k, k < n → ∃ b, (c.procs k).pc = .done b := by
+  intro k hk
+  simp only [nAllDone, List.all_eq_true, List.mem_range] at h
+  have := h k hk
+  cases hpc : (c.procs k).pc <;> simp_all
+
+/-- **C08_sharded_concurrent_nested_exception** (the two-level counterpart of `C08_sharded_concurrent_exception`):
+shard drivers x inner workers, ANY jobs (`jobOk` of `C08_sharded_concurrent_nested_crash` is not needed here).  The
+pre-flight passed, the threads ran under any two-level schedule with any failures — in one shard or in several,
+at `mkdtemp`, in the prelude, in a task of an inner worker (its siblings running on, the queue being dropped), at
+the `close` of a handle, at `os.replace` — except that no clean-up call (`os.remove`, `os.rmdir`) failed, and
+every driver thread has finished, i.e. the `with ThreadPoolExecutor(...)` block is left and
+`_write_external_tensors` returns or re-raises.  Then:
+
+* it raises iff some effect (of a driver thread or of an inner worker) failed;
+* no temporary directory and no temporary file of any shard remains;
+* every file that existed before has its name, inode, bytes and mode; no tensor was invalidated
+  (and `C08_sharded_concurrent_nested_crash` says what the shard destinations hold). -/
+theorem C08_sharded_concurrent_nested_exception (newMode : Nat) (jobs : List NJob) (sched : List NPick) (s0 : St)
+    (h0 : WF s0) (hpre : jobs.any (fun j => existsP s0.fs (.user j.dest)) = false)
+    (hdone : nAllDone jobs.length (saveShardedNest newMode jobs sched s0).final = true)
+    (hclean : ∀ st ∈ (saveShardedNest newMode jobs sched s0).steps, st.failed = true →
+      st.eff ≠ .removeTmp ∧ st.eff ≠ .rmdirTmp) :
+    (nAnyRaised jobs.length (saveShardedNest newMode jobs sched s0).final = true ↔
+      ∃ st ∈ (saveShardedNest newMode jobs sched s0).steps, st.failed = true) ∧
+    (∀ k, ((saveShardedNest newMode jobs sched s0).final.procs k).loc.fs.isDir .tmpDir = false ∧
+          ((saveShardedNest newMode jobs sched s0).final.procs k).loc.fs.file .tmpFile = none) ∧
+    (∀ n i, s0.fs.file (.user n) = some i →
+      (saveShardedNest newMode jobs sched s0).final.sh.fs.file (.user n) = some i ∧
+      (saveShardedNest newMode jobs sched s0).final.sh.fs.data i = s0.fs.data i ∧
+      (saveShardedNest newMode jobs sched s0).final.sh.fs.mode i = s0.fs.mode i) ∧
+    (saveShardedNest newMode jobs sched s0).final.sh.valid = s0.valid := by
+  have hinv := nrun_shinv newMode jobs s0 h0 sched
+  have hfin : (saveShardedNest newMode jobs sched s0).final = (nrun newMode sched ⟨s0, initNProcs jobs⟩).2 := by
+    simp [saveShardedNest, hpre]
+  have hsteps : (saveShardedNest newMode jobs sched s0).steps = (nrun newMode sched ⟨s0, initNProcs jobs⟩).1 := by
+    simp [saveShardedNest, hpre]
+  have hinit : ∀ k, NClean (initNProcs jobs k) ∧ NNoExc (initNProcs jobs k) := by
+    intro k
+    simp only [initNProcs]
+    cases jobs[k]? <;> simp [NClean, NNoExc, noTmp_empty]
+  rw [← hfin] at hinv
+  have hj : ∀ j ∈ jobs, s0.fs.file (.user j.dest) = none := by
+    intro j hjm
+    have := List.any_eq_false.mp hpre j hjm
+    simp only [existsP, Bool.or_eq_true, not_or] at this
+    cases hf : s0.fs.file (.user j.dest) with
+    | none => rfl
+    | some i => simp [hf] at this
+  refine ⟨⟨?_, ?_⟩, ?_, ?_, hinv.valid⟩
+  rotate_left 3
+  · -- no pre-existing file changed
+    intro n i hn
+    rcases hinv.each n with ho | ⟨j, hjm, hjd, _⟩
+    · exact ⟨by rw [ho, hn], hinv.data i (h0.named _ _ hn), hinv.mode i (h0.named _ _ hn)⟩
+    · rw [← hjd, hj j hjm] at hn; simp at hn
+  · -- raised -> some effect failed
+    intro hr
+    apply Classical.byContradiction
+    intro hno
+    have hall : ∀ st ∈ (nrun newMode sched ⟨s0, initNProcs jobs⟩).1, st.failed = false := by
+      intro st hst
+      rw [← hsteps] at hst
+      cases hf : st.failed with
+      | false => rfl
+      | true => exact absurd ⟨st, hst, hf⟩ hno
+    have h := nrun_nnoexc newMode sched ⟨s0, initNProcs jobs⟩ (fun k => (hinit k).2) hall
+    simp only [nAnyRaised, List.any_eq_true, List.mem_range] at hr
+    rcases hr with ⟨k, _, hk⟩
+    have := (h k).2
+    rw [← hfin] at this
+    have hpc : ((saveShardedNest newMode jobs sched s0).final.procs k).pc = .done true := by simpa using hk
+    rw [hpc] at this
+    simp at this
+  · -- some effect failed -> raised
+    rintro ⟨st, hst, hf⟩
+    rw [hsteps] at hst
+    have he := nrun_failed_exc newMode sched _ st hst hf
+    rw [← hfin] at he
+    have hk : st.k < jobs.length := by
+      apply Nat.lt_of_not_le
+      intro hle
+      simp [NExc, hinv.out st.k hle] at he
+    rcases nAllDone_spec hdone st.k hk with ⟨b, hb⟩
+    simp only [NExc, hb] at he
+    subst he
+    simp only [nAnyRaised, List.any_eq_true, List.mem_range]
+    exact ⟨st.k, hk, by simp [hb]⟩
+  · -- no temporary path remains
+    have h := nrun_nclean newMode sched ⟨s0, initNProcs jobs⟩ (fun k => (hinit k).1)
+      (fun st hst => hclean st (by rw [hsteps]; exact hst))
+    intro k
+    have hc := h k
+    rw [← hfin] at hc
+    by_cases hk : k < jobs.length
+    · rcases nAllDone_spec hdone k hk with ⟨b, hb⟩
+      simpa [NClean, hb, noTmp] using hc
+    · have := hinv.out k (Nat.le_of_not_lt hk)
+      simpa [NClean, this, noTmp] using hc
+
+/-! ### Non-vacuity of the hypotheses of `C08_sharded_concurrent_nested_exception` -/
+
+example : WF exSt ∧ (∀ j ∈ exNJobs, jobOk 420 j = true) ∧
+    exNJobs.any (fun j => existsP exSt.fs (.user j.dest)) = false := ⟨exSt_wf, by decide, by decide⟩
+/-- an inner worker's write fails: every hypothesis holds, the save raises, nothing is left -/
+example :
+    let r := saveShardedNest 420 exNJobs (exNSched true) exSt
+    nAllDone exNJobs.length r.final = true ∧
+    (∀ st ∈ r.steps, st.failed = true → st.eff ≠ .removeTmp ∧ st.eff ≠ .rmdirTmp) ∧
+    (r.steps.filter (fun s => s.failed)).map (fun s => (s.k, s.w)) = [(0, some 1)] ∧
+    nAnyRaised exNJobs.length r.final = true ∧
+    (∀ k ∈ [0, 1], (r.final.procs k).loc.fs.isDir .tmpDir = false ∧ (r.final.procs k).loc.fs.file .tmpFile = none) ∧
+    content r.final.sh (.user "m.data") = some [1, 2, 3, 4] := by decide
+/-- fault free: every hypothesis holds, nothing raises -/
+example :
+    let r := saveShardedNest 420 exNJobs (exNSched false) exSt
+    nAllDone exNJobs.length r.final = true ∧ (∀ st ∈ r.steps, st.failed = false) ∧
+    nAnyRaised exNJobs.length r.final = false := by decide
+/-- a failing `os.rmdir` leaves the temporary directory of shard 1 behind (why the hypothesis is there) -/
+example :
+    let r := saveShardedNest 420 exNJobs
+      ((List.range 10).map (fun i => (⟨1, none, 0, if i == 7 then some 0 else none⟩ : NPick))) exSt
+    (r.final.procs 1).pc = .done true ∧ (r.final.procs 1).loc.fs.isDir .tmpDir = true ∧
+    (r.steps.filter (fun s => s.failed)).map (fun s => s.eff) = [.rmdirTmp] := by decide
+
 end IrVerif.AtomicSave
